@@ -124,7 +124,6 @@ fn main() {
 }
 
 fn fuzz_artifact(id: &str, target: &str, file: &str, seed: u64, tier: Tier) -> i32 {
-    use yqv::fuzzdec::{self, MontCase};
     let Ok(data) = std::fs::read(file) else {
         eprintln!("cannot read {}", file);
         return 3;
@@ -132,31 +131,15 @@ fn fuzz_artifact(id: &str, target: &str, file: &str, seed: u64, tier: Tier) -> i
     let Some(def) = yqv::props::find(id) else { return 3 };
     let mut ctx = Ctx::new(def.id, tier, seed, def.level);
     ctx.replay_mode = true;
-    let mut l = engine::Local::new();
-    let (check, case, res): (&str, serde_json::Value, Result<(), Fail>) = match target {
-        "fz_gcd" => match fuzzdec::gcd_case(&data) {
-            Some(c) => ("gcd", serde_json::to_value(&c).unwrap(), engine::catch(|| yqv::props::c09::check(&c, &mut l)).unwrap_or_else(|p| Err(Fail::new("unguarded|panic", p.msg)))),
-            None => return 0,
-        },
-        "fz_mont" => match fuzzdec::mont_case(&data) {
-            Some(MontCase::Ops(c)) => ("ops", serde_json::to_value(&c).unwrap(), engine::catch(|| yqv::props::c07::check_ops(&c, &mut l)).unwrap_or_else(|p| Err(Fail::new("unguarded|panic", p.msg)))),
-            Some(MontCase::Redc(c)) => ("redc", serde_json::to_value(&c).unwrap(), engine::catch(|| yqv::props::c07::check_redc(&c, &mut l)).unwrap_or_else(|p| Err(Fail::new("unguarded|panic", p.msg)))),
-            Some(MontCase::Mg64(c)) => ("mg64", serde_json::to_value(&c).unwrap(), engine::catch(|| yqv::props::c07::check_mg64(&c, &mut l)).unwrap_or_else(|p| Err(Fail::new("unguarded|panic", p.msg)))),
-            None => return 0,
-        },
-        _ => {
-            eprintln!("unknown fuzz target {}", target);
-            return 3;
-        }
-    };
-    match res {
-        Ok(()) => {
+    match yqv::fuzzdec::fuzz_one(target, &data) {
+        None => 0,
+        Some((_, _, Ok(()))) => {
             // the artifact was a sanitizer report / timeout / OOM rather than an oracle failure: keep it as inconclusive
             println!("INCONCLUSIVE property={} fuzz artifact {} does not fail the oracle when replayed (sanitizer report, timeout or OOM?)", id, file);
             2
         }
-        Err(f) if f.class.starts_with("HARNESS|") || f.class.starts_with("PROBE|") => 0,
-        Err(f) => {
+        Some((_, _, Err(f))) if f.class.starts_with("HARNESS|") || f.class.starts_with("PROBE|") => 0,
+        Some((check, case, Err(f))) => {
             if ctx.violation(check, &f, case) {
                 1
             } else {
